@@ -7,9 +7,9 @@ Text.allMatches (driver engine `text`), plus dynamic certificates from the hooks
 Theorems in Thm/C01.lean are re-checked on every run.
 """
 import binascii
-from vf import core
+from vf import core, acbuild
 
-THM = ["YaraModel.Thm.C01", "YaraModel.Thm.AcCert"]
+THM = ["YaraModel.Thm.C01", "YaraModel.Thm.AcCert", "YaraModel.Thm.AcBuild"]
 MANIFEST = dict(
     technique="Lean 4 proofs (atoms cover every variant for every window choice; verify = spec; sorted de-duplicated insertion; pipeline = spec for every complete candidate set) + spec-level correspondence of the real engine against the Lean specification",
     text="proof: Thm/C01.lean proves for ALL strings, ALL legal modifier sets / xor ranges, ALL atom-window choices (hence all quality heuristics) and ALL buffers that the "
@@ -309,6 +309,9 @@ def run(tier, replay=None):
     lres = core.lean_check(THM)
     core.proof_coverage(chk, lres, THM)
     b = core.build("asan", harness=["h_scan"])
+    if replay and replay.get("acbuild"):                 # a filed construction mismatch: recompile that rule set, rebuild, compare
+        core.handle_broken_proof(chk, lres, acbuild.replay(chk, b, replay))
+        return chk.finish("proof")
     r = core.rng("C01")
     n = 3000 if tier == "quick" else 150000
     cases, hl, dl = [], [], []
@@ -371,6 +374,11 @@ def run(tier, replay=None):
             chk.violation("ac_cert_%d.json" % i, {"kind": "Aho-Corasick certificate fails on the compiled tables (candidates are not provably the atom occurrences) or the table-driven scan model disagrees with the real candidate list",
                                                   "driver": l, "case": [c for c in cases if c["id"] == cid][:1], "engine": "ac"}, no_input=True)
             found = True
+        # construction tie (Thm/AcBuild): the Lean model of ahocorasick.c must build EXACTLY these tables from the logged atoms
+        found = acbuild.report(chk, acbuild.compare(impl), {h.split(" ", 1)[0]: h for h in hl}, "case") or found
+        certs_ac["construction_model_equal"] = dict(acbuild.compare.last)
+        if not replay:
+            found = acbuild.run_extra(chk, b, core.rng("C01-acbuild"), "text", tier) or found
         mi = {l.split(" ", 1)[0]: l for l in impl}
         mm = {l.split(" ", 1)[0]: l for l in model}
         for c, h, d in zip(cases, hl, dl):
